@@ -1,5 +1,6 @@
 from abc import ABC, abstractmethod
 from bisect import bisect_left
+from decimal import Decimal
 from itertools import islice
 from os.path import commonprefix
 from random import Random
@@ -199,12 +200,9 @@ def _get_round_precision(values: Iterable[Value]) -> int:
     max_precision = 0
     for value in values:
         assert isinstance(value, float) or isinstance(value, np.floating)
-        value_str = str(value)
-        if "." in value_str:
-            decimal_part = value_str.split(".")[1]
-            precision = len(decimal_part)
-        else:
-            precision = 0
+        # Number of decimal places of the shortest representation; also correct for exponent notation ("1.5e-09").
+        exponent = Decimal(str(value)).as_tuple().exponent
+        precision = max(0, -exponent) if isinstance(exponent, int) else 0
         if precision > max_precision:
             max_precision = precision
     return max_precision
